@@ -14,6 +14,7 @@ import (
 	"golang.org/x/net/context"
 	"google.golang.org/grpc/codes"
 	"google.golang.org/grpc/status"
+	"google.golang.org/protobuf/proto"
 )
 
 // Traversal parses a traversal request and streams the results back
@@ -48,17 +49,20 @@ func (server *GripServer) Traversal(query *gripql.GraphQuery, queryServer gripql
 func (server *GripServer) ListGraphs(ctx context.Context, empty *gripql.Empty) (*gripql.ListGraphsResponse, error) {
 	//server.updateGraphMap()
 	graphs := []string{}
+	server.mu.RLock()
 	for g := range server.graphMap {
 		graphs = append(graphs, g)
 	}
+	server.mu.RUnlock()
 	return &gripql.ListGraphsResponse{Graphs: graphs}, nil
 }
 
 // ListTables returns list of all tables that are found in plugin system
 func (server *GripServer) ListTables(empty *gripql.Empty, srv gripql.Query_ListTablesServer) error {
-	client := gripper.NewGripperClient(server.sources)
+	sources := server.sourceClients()
+	client := gripper.NewGripperClient(sources)
 
-	for k := range server.sources {
+	for k := range sources {
 		for col := range client.GetCollections(context.Background(), k) {
 			info, _ := client.GetCollectionInfo(context.Background(), k, col)
 			srv.Send(&gripql.TableInfo{Source: k, Name: col, Fields: info.SearchFields, LinkMap: info.LinkMap})
@@ -444,7 +448,9 @@ func (server *GripServer) GetSchema(ctx context.Context, elem *gripql.GraphID) (
 	if !server.graphExists(elem.Graph) {
 		return nil, status.Errorf(codes.NotFound, fmt.Sprintf("graph %s: not found", elem.Graph))
 	}
+	server.mu.RLock()
 	schema, ok := server.schemas[elem.Graph]
+	server.mu.RUnlock()
 	if !ok {
 		if server.conf.Server.AutoBuildSchemas {
 			return nil, status.Errorf(codes.Unavailable, fmt.Sprintf("graph %s: schema not available; try again later", elem.Graph))
@@ -453,7 +459,10 @@ func (server *GripServer) GetSchema(ctx context.Context, elem *gripql.GraphID) (
 	}
 
 	if schema.Graph == "" {
-		schema.Graph = elem.Graph
+		// the cached schema is shared by all callers: name a copy, not the original
+		named := proto.Clone(schema).(*gripql.Graph)
+		named.Graph = elem.Graph
+		return named, nil
 	}
 	return schema, nil
 }
@@ -482,7 +491,9 @@ func (server *GripServer) AddSchema(ctx context.Context, req *gripql.Graph) (*gr
 	if err != nil {
 		return nil, fmt.Errorf("failed to store new schema: %v", err)
 	}
+	server.mu.Lock()
 	server.schemas[req.Graph] = req
+	server.mu.Unlock()
 	return &gripql.EditResult{Id: req.Graph}, nil
 }
 
